@@ -17,15 +17,16 @@ const (
 
 // vFragment returns a symbolic well-formed, line-safe fragment of the
 // given shape, as documented raw-mode input.  Shapes:
-//  0: empty
-//  1: one ASCII byte
-//  2: S a E            (closed envelope with 1 ASCII non-LF byte)
-//  3: a S b E          (safe byte, envelope)
-//  4: S a E b          (envelope, safe byte)
-//  5: a LF             (safe run ending in LF)
-//  6: S E              (empty envelope)
-//  7: two safe ASCII bytes
-//  8: S a E LF
+//
+//	0: empty
+//	1: one ASCII byte
+//	2: S a E            (closed envelope with 1 ASCII non-LF byte)
+//	3: a S b E          (safe byte, envelope)
+//	4: S a E b          (envelope, safe byte)
+//	5: a LF             (safe run ending in LF)
+//	6: S E              (empty envelope)
+//	7: two safe ASCII bytes
+//	8: S a E LF
 func vFragment(shape int) []byte {
 	asc := func(nl bool) byte {
 		c := vByte()
@@ -94,22 +95,22 @@ func normEnv(b []byte) []byte { return mergeAdj(b) }
 // payload templates: 's' start marker, 'e' end marker, 'n' line feed,
 // 'x' cross, '.' one fully symbolic byte, 'E' 0xE2, '8' 0x80
 var payloadTemplates = []string{
-	"",        // 0: all symbolic (n bytes)
-	"..sn.",   // 1: marker right before a line feed, two bytes in front
-	"..en.",   // 2
-	"ns.",     // 3: line feed first, then marker
-	".ss.",    // 4: adjacent markers
-	".se.",    // 5
-	"E.s",     // 6: stray lead byte before a marker
-	"E8.e.",   // 7
-	"s.n.e",   // 8
-	"..n.E",   // 9: truncated tail after a split
-	"n.n",     // 10
-	".sn",     // 11: marker + LF at the very end
-	"..s..n",  // 12
-	"E.n.",    // 13: LF within two bytes of a stray lead byte
-	"E8n.",    // 14
-	".nns.",   // 15
+	"",       // 0: all symbolic (n bytes)
+	"..sn.",  // 1: marker right before a line feed, two bytes in front
+	"..en.",  // 2
+	"ns.",    // 3: line feed first, then marker
+	".ss.",   // 4: adjacent markers
+	".se.",   // 5
+	"E.s",    // 6: stray lead byte before a marker
+	"E8.e.",  // 7
+	"s.n.e",  // 8
+	"..n.E",  // 9: truncated tail after a split
+	"n.n",    // 10
+	".sn",    // 11: marker + LF at the very end
+	"..s..n", // 12
+	"E.n.",   // 13: LF within two bytes of a stray lead byte
+	"E8n.",   // 14
+	".nns.",  // 15
 }
 
 func templatePayload(t string) []byte {
@@ -165,6 +166,9 @@ func H_escape(p []int) {
 	wf, ls := wfls(out)
 	vAssert(wf, "C01/wf")
 	vAssert(ls, "C03/lineSafe")
+	if vProp("C03") {
+		vAssert(linesWF(out), "C03/each-line-wf")
+	}
 	vAssert(bytesEq(Q, Q0), "C10/payload-unmodified")
 	// reference
 	brk := mode == modeUnsafe
@@ -222,6 +226,9 @@ func H_escbytes(p []int) {
 	wf, ls := wfls(out)
 	vAssert(wf, "C01/wf-escapebytes")
 	vAssert(ls, "C03/lineSafe-escapebytes")
+	if vProp("C03") {
+		vAssert(linesWF(out), "C03/each-line-wf-escapebytes")
+	}
 	vAssert(wf, "C10/escapebytes-wf")
 	vAssert(ls, "C10/escapebytes-lineSafe")
 	vAssert(bytesEq(b, b0), "C10/payload-unmodified")
